@@ -143,6 +143,7 @@ func main() {
 		fmt.Fprintln(os.Stderr, "usage: check <property> quick|thorough | check --replay <file>")
 		os.Exit(2)
 	}
+	calibrateErrors()
 	if os.Args[1] == "--race-child" {
 		raceChildMain(os.Args[2:])
 		return
@@ -180,6 +181,7 @@ func main() {
 		defer lock.Close()
 	}
 
+	startWatchdog(id, tier, seed, start)
 	ctx := &RunCtx{Prop: id, Tier: tier, Seed: seed, R: NewRand(uint64(seed) ^ hashStr(id)), Thor: tier == "thorough", Extra: map[string]interface{}{}, ExploreHist: map[string]int{}}
 
 	// 1. regenerate the tables from /repo and rebuild the Coq development
